@@ -1,0 +1,38 @@
+use naijascript::diagnostics::AsStr;
+use naijascript::syntax::parser::{MAX_NESTING_DEPTH, SyntaxError};
+
+mod common;
+use crate::common::with_pipeline;
+
+fn too_deep(src: &str) -> bool {
+    with_pipeline(src, |_, (_, parse_errors), _, _| {
+        parse_errors.diagnostics.iter().any(|e| e.message == SyntaxError::NestingTooDeep.as_str())
+    })
+}
+
+#[test]
+fn nesting_below_the_limit_is_accepted() {
+    let n = MAX_NESTING_DEPTH / 4;
+    assert!(!too_deep(&format!("shout({}1{})", "(".repeat(n), ")".repeat(n))));
+    assert!(!too_deep(&format!("{}shout(1)\n{}", "start\n".repeat(n), "end\n".repeat(n))));
+    assert!(!too_deep(&format!("shout(1{})", " add 1".repeat(n))));
+}
+
+#[test]
+fn nesting_past_the_limit_is_one_syntax_error() {
+    let n = 100 * MAX_NESTING_DEPTH;
+    for src in [
+        format!("shout({}1{})", "(".repeat(n), ")".repeat(n)),
+        format!("make a get {}1{}", "[".repeat(n), "]".repeat(n)),
+        format!("shout({}true)", "not ".repeat(n)),
+        format!("shout(1{})", " add 1".repeat(n)),
+        format!("shout(\"a\"{})", ".trim()".repeat(n)),
+        format!("{}shout(1)\n{}", "start\n".repeat(n), "end\n".repeat(n)),
+        format!("{}shout(1)\n{}", "if to say (true) start\n".repeat(n), "end\n".repeat(n)),
+    ] {
+        with_pipeline(&src, |_, (_, parse_errors), _, _| {
+            let messages: Vec<_> = parse_errors.diagnostics.iter().map(|e| e.message).collect();
+            assert_eq!(messages, [SyntaxError::NestingTooDeep.as_str()]);
+        });
+    }
+}
